@@ -1,23 +1,42 @@
 #!/usr/bin/env python3
-"""tools/run_seeds.py [ids...] : apply each seeded change to /repo, run the quick check of its property, undo it,
-and record the outcome in the seed's meta.json (detected_by).  Never leaves /repo modified."""
-import json, os, subprocess, sys, glob
-ids = sys.argv[1:] or sorted(os.path.basename(d) for d in glob.glob("/verif/seeded/C*"))
-for sid in ids:
+"""tools/run_seeds.py [-j N] [ids...] : apply each seeded change in a scratch worktree of /repo (VERIF_REPO), run the quick
+check of its property there, remove the worktree and record the outcome in the seed's meta.json (detected_by).
+/repo itself is never modified.  (The runs overwrite /verif/evidence/<id>.json: regenerate the evidence against /repo afterwards.)"""
+import concurrent.futures as cf, glob, json, os, subprocess, sys, tempfile
+args = sys.argv[1:]
+jobs = 4
+if args[:1] == ["-j"]:
+    jobs = int(args[1]); args = args[2:]
+ids = args or sorted(os.path.basename(d) for d in glob.glob("/verif/seeded/C*"))
+
+
+def one(sid):
     d = "/verif/seeded/" + sid
     meta = json.load(open(d + "/meta.json"))
-    prop = meta["property"]
-    if subprocess.run(["git", "-C", "/repo", "diff", "--quiet"]).returncode != 0:
-        print("/repo dirty"); sys.exit(2)
-    if subprocess.run(["git", "-C", "/repo", "apply", d + "/patch.diff"]).returncode != 0:
-        meta["detected_by"] = "patch does not apply to current /repo"; json.dump(meta, open(d + "/meta.json", "w"), indent=1)
-        print(sid, "NO-APPLY"); continue
+    props = [meta["property"]] + [p for p in meta.get("also_try", [])]
+    wt = tempfile.mkdtemp(prefix="seed_wt.", dir="/tmp"); os.rmdir(wt)
+    if subprocess.run(["git", "-C", "/repo", "worktree", "add", "--detach", wt, "HEAD"], capture_output=True).returncode != 0:
+        return sid, "worktree failed"
     try:
-        p = subprocess.run(["/verif/check", prop, "--tier", "quick"], capture_output=True, text=True, timeout=1500)
-        lines = [l for l in p.stdout.splitlines() if l.startswith("  violated clause")]
-        meta["detected_by"] = {"check": "./check %s --tier quick" % prop, "exit": p.returncode,
-                               "first_clause": lines[0][:300] if lines else None}
-        print(sid, "rc=%d" % p.returncode, (lines[0][:160] if lines else p.stdout[-200:]))
+        if subprocess.run(["git", "-C", wt, "apply", d + "/patch.diff"], capture_output=True).returncode != 0:
+            meta["detected_by"] = "patch does not apply to current /repo HEAD"
+            json.dump(meta, open(d + "/meta.json", "w"), indent=1)
+            return sid, "NO-APPLY"
+        res = []
+        for prop in props:
+            p = subprocess.run(["/verif/check", prop, "--tier", "quick"], capture_output=True, text=True, timeout=3000, env=dict(os.environ, VERIF_REPO=wt))
+            lines = [l for l in p.stdout.splitlines() if l.startswith("  violated clause")]
+            res.append({"check": "./check %s --tier quick" % prop, "exit": p.returncode, "first_clause": lines[0][:300] if lines else None})
+            if p.returncode == 1:
+                break
+        meta["detected_by"] = res[-1] if res[-1]["exit"] == 1 else res[0]
+        json.dump(meta, open(d + "/meta.json", "w"), indent=1)
+        return sid, "rc=%d %s" % (meta["detected_by"]["exit"], (meta["detected_by"]["first_clause"] or "")[:140])
     finally:
-        subprocess.run(["git", "-C", "/repo", "checkout", "--", "."])
-    json.dump(meta, open(d + "/meta.json", "w"), indent=1)
+        subprocess.run(["git", "-C", "/repo", "worktree", "remove", "--force", wt], capture_output=True)
+
+
+with cf.ThreadPoolExecutor(jobs) as ex:
+    for sid, out in ex.map(one, ids):
+        print(sid, out, flush=True)
+subprocess.run(["git", "-C", "/repo", "worktree", "prune"])
